@@ -23,6 +23,16 @@ CHECKS = {
     note=NOTE_COMMON + 'syn is not modelled (attribute AST obtained from the same source text by harness/libdrive/src/ast.rs). Domain: nested cfg lists that parse as meta lists.',
     technique='Rocq proof (induction on predicate size, permutation invariance) + differential correspondence through parser::parse',
     design='§11 C13'),
+ 'C18': dict(
+    text='Machine-checked theorems (Props/C18.v): for ALL integers v (hence all u64/i64) construction succeeds exactly when v is in the safe range '
+         'and returns v; conversions back, widening From<narrow>, narrowing TryFrom (the `as` cast modelled as explicit wrap-around and shown '
+         'to be the identity under the range check), usize saturation, serde JSON round trip and literal rejection (-0, fractions, exponents, '
+         'out-of-range) over a model of serde_json number classification; with Flocq: every safe integer converts to binary64 exactly and '
+         'injectively, and 2^53, 2^53+1 collapse. Tied to the code by running the real typeshare crate + serde_json on boundary sweeps and '
+         'stratified random values and comparing canonical result lines verbatim; node Number.isSafeInteger cross-checks the spec.',
+    note=NOTE_COMMON + 'Axioms (Print Assumptions, only in the Flocq/Reals theorems): ClassicalDedekindReals.sig_not_dec, ClassicalDedekindReals.sig_forall_dec, FunctionalExtensionality.functional_extensionality_dep, Classical_Prop.classic - all declared by Coq\'s standard library. serde_json number classification is modelled (Model/Integer.v classify) and validated by the correspondence.',
+    technique='Rocq proof (lia over Z, Flocq binary64) + exhaustive boundary sweep / stratified differential correspondence',
+    design='§11 C18'),
 }
 NOT_YET = {}
 def main():
